@@ -378,4 +378,158 @@ theorem window_of_tie (e wn s m0 t : Nat) (hm0 : m0 % 2 = 1) (hwn0 : 0 < wn)
   rw [hj]
   exact Nat.mul_le_mul_left _ h4
 
+theorem m0_ge {p : Nat} (hp61 : p ≤ 61) (hi u sh : Nat) (hhi_lt : hi < 2 ^ 64) (hhi_ge : 2 ^ 62 ≤ hi)
+    (hu : hi / 2 ^ 63 = u) (hshv : u + 62 - p = sh) : 2 ^ p ≤ hi / 2 ^ sh ∧ u ≤ 1 := by
+  have hu01 : u ≤ 1 := by
+    rw [← hu]
+    have : hi / 2 ^ 63 < 2 := by
+      rw [Nat.div_lt_iff_lt_mul (Nat.two_pow_pos _)]; omega
+    omega
+  refine ⟨?_, hu01⟩
+  rw [Nat.le_div_iff_mul_le (Nat.two_pow_pos _), ← Nat.pow_add]
+  by_cases h1 : u = 1
+  · have : 2 ^ 63 ≤ hi := by
+      apply Classical.byContradiction; intro hc
+      have : hi / 2 ^ 63 = 0 := Nat.div_eq_of_lt (by omega)
+      omega
+    rw [show p + sh = 63 by omega]; exact this
+  · rw [show p + sh = 62 by omega]; exact hhi_ge
+
+/-- **`compute_float` on the reciprocal rows rounded up**, `−27 ≤ −e ≤ −1`: it answers with a valid float, and that
+float is `roundNE (w / 10^e)`. `hwin`: the round-to-even window is where `5^e·2^p` still fits a `u64`;
+`htc`: the per-row tie check. -/
+theorem computeFloat_neg_small {F p eb sm lg rlo rhi} (LL : LemLayout F p eb sm lg rlo rhi)
+    (hwin : 2 ^ 64 ≤ 5 ^ (rlo + 1) * 2 ^ p) (htc : ∀ e, 1 ≤ e → e ≤ rlo → tieRowOk p e = true)
+    (hbias : 91 ≤ 2 ^ (eb - 1) - 1)
+    (e : Nat) (h1 : 1 ≤ e) (h27 : e ≤ 27) (hesm : e ≤ sm) (w : Nat) (hw0 : w ≠ 0) (hw : w < 2 ^ 64) :
+    ∃ fp, computeFloat F (-(e : Int)) w false = .ok fp ∧ 0 ≤ fp.exp ∧
+      extendedToFloat F fp = roundNE F.fmt w (10 ^ e) := by
+  have lay := LL.lay
+  have hf := lay.wf
+  have hp := lay.hp; have hp64 := lay.hp64; have heb := lay.heb
+  have hms := lay.msNat
+  have hfp : F.fmt.p = p := by rw [lay.fmt]
+  have hp61 : p ≤ 61 := by
+    have h1 := lay.hpb
+    have : eb ≠ 2 := by intro h; subst h; omega
+    omega
+  obtain ⟨hi5, lo5, hrow, hhi5, hlo5, hhi5n, hb3, hb63, h5lt, hTgt, hTle, hpow⟩ := rows_neg_small e h1 h27
+  obtain ⟨hlz, hwn1, hwn2, hshl⟩ := clz_norm hw0 hw
+  have hidx : (-(e : Int) + 342).toNat = 342 - e := by omega
+  have hprec : F.ms + litPrecisionExtra = p + 2 := by rw [hms]; show p - 1 + 3 = p + 2; omega
+  obtain ⟨lo, hi, hcpa, hlo, hhi, hzlow, hzup⟩ := cpa_bounds (-(e : Int)) (by omega) (by omega) hi5 lo5
+    (by rw [hidx]; exact hrow) hhi5 hlo5 (w * 2 ^ clz64 w) (F.ms + litPrecisionExtra) (by rw [hprec]; omega) hwn2
+  unfold computeFloat
+  rw [if_neg (by intro h; rcases h with h | h; exact hw0 h; rw [LL.smallest] at h; omega),
+    if_neg (by rw [LL.largest]; omega)]
+  simp only [hshl, hcpa]
+  generalize hlzv : clz64 w = lz at *
+  generalize hb5 : bitlen (5 ^ e) = b at *
+  have hsafe : (decide (litSafeLo ≤ -(e : Int)) && decide (-(e : Int) ≤ litSafeHi)) = true := by
+    have h1 : decide (litSafeLo ≤ -(e : Int)) = true := by
+      unfold litSafeLo; simp only [decide_eq_true_eq]; omega
+    have h2 : decide (-(e : Int) ≤ litSafeHi) = true := by
+      unfold litSafeHi; simp only [decide_eq_true_eq]; omega
+    rw [h1, h2]; rfl
+  rw [hsafe]
+  simp only [Bool.not_true, Bool.and_false, Bool.false_eq_true, if_false]
+  have hwn0 : 0 < w * 2 ^ lz := by have := Nat.two_pow_pos 63; omega
+  have h5pos : 0 < 5 ^ e := Nat.pow_pos (by decide)
+  have hNlt : w * 2 ^ lz * 2 ^ (b + 127) < w * 2 ^ lz * (hi5 * 2 ^ 64 + lo5) * 5 ^ e := by
+    rw [Nat.mul_assoc (w * 2 ^ lz)]; exact Nat.mul_lt_mul_of_pos_left hTgt hwn0
+  have hNge : w * 2 ^ lz * (hi5 * 2 ^ 64 + lo5) * 5 ^ e ≤ w * 2 ^ lz * 2 ^ (b + 127) + w * 2 ^ lz * 5 ^ e := by
+    rw [Nat.mul_assoc (w * 2 ^ lz), ← Nat.mul_add]; exact Nat.mul_le_mul_left _ hTle
+  have hdiv : 2 ^ 129 ∣ w * 2 ^ lz * 2 ^ (b + 127) :=
+    Dvd.dvd.mul_left (Nat.pow_dvd_pow 2 (by omega)) _
+  generalize hu : hi / 2 ^ 63 = u
+  generalize hshv : u + 62 - p = sh
+  have hmb : 64 - (F.ms + litPrecisionExtra) = 62 - p := by rw [hprec]; omega
+  rw [hmb] at hzup
+  obtain ⟨hhi62, hquot, hgt⟩ := upper_bits_upper hp61 (w * 2 ^ lz) hi5 lo5 lo hi (w * 2 ^ lz * 2 ^ (b + 127)) (5 ^ e)
+    hwn1 hwn2 hhi5n hlo hhi hzlow hzup h5pos h5lt hNlt hNge hdiv u sh hu hshv
+  obtain ⟨hm0lo, hu01⟩ := m0_ge hp61 hi u sh hhi hhi62 hu hshv
+  have hB := Nat.two_pow_pos 64
+  have hDpos : 0 < 2 ^ sh * 2 ^ 64 * (2 ^ 64 * 5 ^ e) :=
+    Nat.mul_pos (Nat.mul_pos (Nat.two_pow_pos _) hB) (Nat.mul_pos hB h5pos)
+  have hNw : w * 2 ^ lz * 2 ^ (b + 127) = w * 2 ^ (lz + (b + 127)) := by
+    rw [Nat.pow_add 2 lz, Nat.mul_assoc]
+  have hL := L_eq lay
+  have hL127 := lay.hL127
+  have hpwv : power (wrapI32 (-(e : Int))) + (u : Int) - (lz : Int) - F.C.minimumExponent =
+      (63 : Int) - e - b + u - lz + ((2 ^ (eb - 1) - 1 : Nat) : Int) := by
+    rw [hpow, LL.minimum]; omega
+  obtain ⟨En, hEn⟩ : ∃ En : Nat, (63 : Int) - e - b + u - lz + ((2 ^ (eb - 1) - 1 : Nat) : Int) = ((En + 1 : Nat) : Int) :=
+    ⟨((63 : Int) - e - b + u - lz + ((2 ^ (eb - 1) - 1 : Nat) : Int) - 1).toNat, by omega⟩
+  have hdmhi := Nat.div_add_mod hi (2 ^ sh)
+  have hshl2 : shl64 (hi / 2 ^ sh) sh = hi / 2 ^ sh * 2 ^ sh := by
+    unfold shl64
+    apply Nat.mod_eq_of_lt
+    have := Nat.div_mul_le_self hi (2 ^ sh)
+    omega
+  have hDz : 0 < 2 ^ 64 * 5 ^ e := Nat.mul_pos hB h5pos
+  have htie : ((decide (lo ≤ litTieLo) && decide (-(e : Int) ≥ F.C.minExponentRoundToEven) &&
+      decide (-(e : Int) ≤ F.C.maxExponentRoundToEven) &&
+      (hi / 2 ^ sh % (litTieMask + 1) == litTieVal) &&
+      (shl64 (hi / 2 ^ sh) sh == hi)) = true) ↔
+      (w * 2 ^ lz * 2 ^ (b + 127) % (2 ^ sh * 2 ^ 64 * (2 ^ 64 * 5 ^ e)) = 0 ∧
+        w * 2 ^ lz * 2 ^ (b + 127) / (2 ^ sh * 2 ^ 64 * (2 ^ 64 * 5 ^ e)) % 4 = 1) := by
+    rw [hshl2, LL.minRTE, LL.maxRTE, hquot]
+    unfold litTieLo litTieMask litTieVal
+    simp only [Bool.and_eq_true, decide_eq_true_eq, beq_iff_eq]
+    constructor
+    · rintro ⟨⟨⟨⟨hl1, hwn⟩, _⟩, hm4⟩, hsl⟩
+      refine ⟨?_, hm4⟩
+      have hr0 : hi % 2 ^ sh = 0 := by rw [Nat.mul_comm] at hdmhi; omega
+      rcases hzup with hX | ⟨_, hzeq, _⟩
+      · exact exact_of_tie_pattern hi lo sh _ _ (5 ^ e) (by omega) h5pos h5lt hl1 hr0 hX hNlt hgt hdiv
+      · exfalso
+        have he : e ≤ rlo := by omega
+        have h2 := no_spurious_tie (htc e h1 he) hp61 hrow sh (by omega) (w * 2 ^ lz) hwn1 hwn2
+        rw [← hzeq] at h2
+        have hz : hi * 2 ^ 64 + lo = 2 ^ (64 + sh) * (hi / 2 ^ sh) + lo := by
+          have : hi * 2 ^ 64 = 2 ^ (64 + sh) * (hi / 2 ^ sh) := by
+            conv_lhs => rw [← hsl]
+            rw [Nat.pow_add]; ring
+          rw [this]
+        rw [hz, Nat.mul_add_mod] at h2
+        have hlt : lo < 2 ^ (64 + sh) :=
+          Nat.lt_of_lt_of_le hlo (Nat.pow_le_pow_right (by decide) (by omega))
+        rw [Nat.mod_eq_of_lt hlt] at h2
+        omega
+    · rintro ⟨hmod0, hm4⟩
+      obtain ⟨hl0, hr0⟩ := tie_pattern_of_exact hi lo sh _ (2 ^ 64 * 5 ^ e) hDz hquot hgt hmod0
+      have hdmN := Nat.div_add_mod (w * 2 ^ lz * 2 ^ (b + 127)) (2 ^ sh * 2 ^ 64 * (2 ^ 64 * 5 ^ e))
+      rw [hmod0, Nat.add_zero, hquot] at hdmN
+      have hodd : hi / 2 ^ sh % 2 = 1 := by omega
+      have hwle := window_of_tie e (w * 2 ^ lz) (b + 127) (hi / 2 ^ sh) (sh + 64 + 64) hodd hwn0 (by
+        rw [← hdmN, Nat.pow_add, Nat.pow_add]; ring)
+      have he : e ≤ rlo := by
+        apply Classical.byContradiction; intro hc
+        have h5 : 5 ^ (rlo + 1) ≤ 5 ^ e := Nat.pow_le_pow_right (by decide) (by omega)
+        have h6 : 5 ^ (rlo + 1) * 2 ^ p ≤ 5 ^ e * (hi / 2 ^ sh) := Nat.mul_le_mul h5 hm0lo
+        omega
+      refine ⟨⟨⟨⟨by omega, by omega⟩, by omega⟩, hm4⟩, ?_⟩
+      rw [Nat.mul_comm] at hdmhi; omega
+  obtain ⟨fp, hfp1, hfp2, hfp3, hq0lo, hq0hi, _⟩ := cfRound_of_quot LL (-(e : Int)) lo hi lz hhi hhi62 u sh
+    hu hshv (w * 2 ^ lz * 2 ^ (b + 127)) (2 ^ sh * 2 ^ 64 * (2 ^ 64 * 5 ^ e)) En hDpos hquot.symm htie
+    (by rw [hpwv, hEn])
+  refine ⟨fp, hfp1, hfp2, ?_⟩
+  rw [hfp3, dpow_normal, hNw]
+  rw [dpow_normal, hNw] at hq0lo hq0hi
+  symm
+  apply roundNE_neg_link hf w e En (lz + (b + 127)) (sh + 129)
+    (en_neg_normal e b u lz (2 ^ (eb - 1) - 1) sh p (L F.fmt) En hshv hL hu01 hp hp61 hL127 hEn)
+  · intro _; rw [hfp]; exact hq0lo
+  · rw [hfp]; exact hq0hi
+  · intro _
+    rw [hfp, ← hNw, ← dpow_normal]
+    have hdm := Nat.div_add_mod (w * 2 ^ lz * 2 ^ (b + 127)) (2 ^ sh * 2 ^ 64 * (2 ^ 64 * 5 ^ e))
+    have hTT : 2 ^ p = 2 * 2 ^ (p - 1) := two_pow_pred (by omega)
+    calc 2 ^ sh * 2 ^ 64 * (2 ^ 64 * 5 ^ e) * 2 * 2 ^ (p - 1)
+        = 2 ^ sh * 2 ^ 64 * (2 ^ 64 * 5 ^ e) * 2 ^ p := by rw [hTT]; ring
+      _ ≤ 2 ^ sh * 2 ^ 64 * (2 ^ 64 * 5 ^ e) *
+          (w * 2 ^ lz * 2 ^ (b + 127) / (2 ^ sh * 2 ^ 64 * (2 ^ 64 * 5 ^ e))) :=
+        Nat.mul_le_mul_left _ (by rw [hquot]; exact hm0lo)
+      _ ≤ w * 2 ^ lz * 2 ^ (b + 127) := by omega
+
 end LexVerif.Proof.Lemire
